@@ -17,9 +17,10 @@
         recorded immediately in front of the element's own item (not for class 31).
     (c') `C07_operator_marks_boundary`, `C07_cancel_back_references`, `C07_recall_restarts`,
         `C07_reuse_marks_are_inert`: what 22X000 / 235000 / 237000 / 236000 / 237255 do to the registers and items.
-    (d) `C07_links_eq_spec` is NOT proved; its statement is kept below as a comment.  The equality is
-        checked by correspondence (harness/props/c07.py evaluates `Spec.links` on the implementation's
-        items for every generated case).
+    (d) `C07_links_eq_spec` — links of the output = `Spec.links` of the items of the output — is PROVED in
+        Props/C07Spec.lean (one subset) and Props/C07SpecMsg.lean (messages, compressed data, the encoder),
+        for every template satisfying `Spec.WFlinks` and items satisfying `Spec.markersOk`; the lemmas of this
+        file are per-step facts about the same functions.
     (e) whole walk / whole message: Props/C07Walk.lean (`C07_walk_invariant`, the soundness half
         `C07_links_sound_partial` / `C07_links_sound_message_partial`) and Props/C07Subsets.lean (the
         links of a subset of an uncompressed message are those of that subset alone;
@@ -427,19 +428,14 @@ theorem C07_reuse_marks_are_inert {P : Prims} (hP : Quiet P) (id : Nat) (hid : i
   exact hP.constant _ _ _ _ h
 
 /-
-  (d) NOT PROVED — the headline, kept as the statement to aim for:
+  (d) The headline `C07_links_eq_spec` is proved in Props/C07Spec.lean:
 
-    C07_links_eq_spec (t : List Desc) (bits : Bits) (o : SubsetOut) (rest : Bits) (cancels : List Nat) :
-        decodeSubset t bits = .ok (o, rest) → Spec.WFbitmap t →
-        (cancels = the item counts at which the walk processed a 235000) →
-        o.links = Spec.links (o.descs.zip o.vals) cancels
+    theorem C07_links_eq_spec (t : List Desc) (bits : Bits) (o : SubsetOut) (rest : Bits)
+        (h : decodeSubset t bits = .ok (o, rest)) (hwf : Spec.WFlinks t)
+        (hok : Spec.markersOk (o.descs.zip o.vals) = true) :
+        o.links = Spec.links (o.descs.zip o.vals) (Spec.cancelsL decPrimsU t { bits := bits, vals := [[]] })
 
-  and its first stage for templates without 235000 (`Spec.no235 t`, `cancels = []`).  What is missing is
-  the invariant that ties the eight bitmap registers of the walk (`bitmapDef`, `n031031`, `backBoundary`,
-  `backRefs`, `bitmapped`, `bmIter`, `qa`, `links`) to the position-indexed look-ups of `Spec.links` on the
-  item prefix recorded so far, carried through `walkList` / `walk1` / `iterN`.  The lemmas above are the
-  per-step facts of that invariant (what each step records and what it points to); the equality itself
-  is checked by correspondence on every generated case (driver op `links-spec`).
+  (`Spec.cancelsL`: the item counts at which the run processed a 235000; `[]` for templates without 235YYY).
 -/
 
 end Bufr
